@@ -303,7 +303,7 @@ func runPackJob(j *Job, res *JobResult) {
 	res.Archive64 = b
 }
 
-var patPool = []string{"a", "a/b", "!a/b", "*", "!*/c", "**/d", "a*", "b/", "?", "[ab]", "!a", "d/**", "a/*/c", "!a/b/c", "**", "!**/e", "c/d", "!c", "*l", "!b/*l", "e/*", "a/b/*", "!a/b/d"}
+var patPool = []string{"a", "a/b", "!a/b", "*", "!*/c", "**/d", "a*", "b/", "?", "[ab]", "!a", "d/**", "a/*/c", "!a/b/c", "**", "!**/e", "c/d", "!c", "*l", "!b/*l", "e/*", "a/b/*", "!a/b/d", ".*", "!.cfg/a", "!.cfg/b", ".cfg", "!.x", "**/.wh.*", "a.b"}
 
 func genPackCase(r *Rng, family string) *PackCase {
 	g := &genCtx{r: r}
@@ -333,6 +333,11 @@ func genPackCase(r *Rng, family string) *PackCase {
 				Node{Path: "/w/root/outdir/of", Kind: 'r', Perm: 0o644, Data: "inside-of", Mtime: 1613})
 		}
 		c.Src = r.pick([]string{"/w/root/src", "/w/root/src/", "/w/root", "/w/root/src/a", "/w/root/src/a/", "/w/root/lnk", "/w/root/lnk/", "/w/root/../outdir", "/w/outdir"})
+		if r.chance(1, 10) {
+			// the root cannot be turned into a jail: nothing may be archived at all
+			c.Root = r.pick([]string{"/w/secret", "/w/missing"})
+			c.Src = c.Root + r.pick([]string{"", "/x", "/../outdir"})
+		}
 		if strings.Contains(c.Src, "lnk") {
 			world = append(world, Node{Path: "/w/root/lnk", Kind: 's', Perm: 0o777, Target: r.pick([]string{"/w/outdir", "../outdir", "src", "/src", "../../w/outdir", "/w/secret"}), Mtime: 1620})
 		}
